@@ -155,7 +155,9 @@ fn run_case(seed: u64, index: u64, scratch: &std::path::Path, rep: &mut Report) 
     // Under Miri looking at a kept event after the buffer was reused is itself the undefined
     // behaviour of known finding D6 (reported natively by comparing contents); keep the Miri
     // runs for everything else the decoder does.
-    let keep_upto = if cfg!(miri) { 0 } else { keep_upto };
+    // The same holds for the sanitizer flavours (the access hits freed memory when the
+    // iterator is gone): there the allocator monitor cannot tell whether the block is live.
+    let keep_upto = if alloc::PASS_THROUGH_ONLY { 0 } else { keep_upto };
     let mut ended = false;
     let mut diverged = false;
     {
